@@ -328,6 +328,62 @@ fn fam_files(ctx: &CaseCtx, cov: &mut Cov) -> CaseOut {
         }
     }
 
+    // (1b) pairs of field faults (two fields wrong at once, possibly compensating)
+    {
+        let firsts = field_mutants(&spec);
+        let n_pairs = ctx.tier.pick(60, 400);
+        for _ in 0..n_pairs {
+            if firsts.is_empty() {
+                break;
+            }
+            let a = &firsts[rng.usize_below(firsts.len())];
+            let seconds = field_mutants(&a.spec);
+            let cands: Vec<&Mutant> = seconds.iter().filter(|m| m.field != a.field).collect();
+            if cands.is_empty() {
+                continue;
+            }
+            let b = cands[rng.usize_below(cands.len())];
+            let (bytes, _) = b.spec.serialize();
+            if bytes == file {
+                continue;
+            }
+            match xz::parse_strict(&bytes) {
+                XzVerdict::Ok(_) => {
+                    cov.name("field_pairs_skipped.still_valid", 1);
+                    continue;
+                }
+                // two consistent edits can yield a well-formed file that merely uses an
+                // unsupported feature (e.g. header and footer both say SHA-256): that is
+                // C18's subject, not an integrity disagreement
+                XzVerdict::Unsupported(_) => {
+                    cov.name("field_pairs_skipped.well_formed_but_unsupported", 1);
+                    continue;
+                }
+                XzVerdict::Invalid(_) => {}
+            }
+            let (v, o) = run_xz(&bytes);
+            out.evals += 1;
+            cov.name("field_pairs", 1);
+            out.nontrivial.push(case_hash(&[&bytes]));
+            match &v {
+                Verdict::Err(_) => {}
+                Verdict::Ok => out.violate(
+                    format!("C06/pair/{}+{}/accepted", a.field, b.field),
+                    format!(
+                        "fields {} ({}) and {} ({}) replaced together, enclosing CRCs recomputed: accepted ({} output bytes, original {}) [base: {}]",
+                        a.field, a.class, b.field, b.class, o.len(), plain.len(), desc
+                    ),
+                    mk_data(&bytes, &format!("{} {} + {} {}", a.field, a.class, b.field, b.class)),
+                ),
+                other => out.violate(
+                    format!("C06/pair/{}+{}/{}", a.field, b.field, verdict_sig(other)),
+                    format!("fields {} ({}) and {} ({}) replaced together: {} [base: {}]", a.field, a.class, b.field, b.class, other.short(), desc),
+                    mk_data(&bytes, &format!("{} {} + {} {}", a.field, a.class, b.field, b.class)),
+                ),
+            }
+        }
+    }
+
     // (2) every single-bit flip
     let mut buf = file.clone();
     for off in 0..file.len() {
@@ -428,13 +484,13 @@ pub fn monitor(tier: Tier) -> Monitor {
     Monitor {
         id: "C06",
         level: "fault_enumeration",
-        rule: "per base file (valid, 0-3 blocks, check None/CRC32/CRC64, size fields on/off, decoded correctly first): (1) every integrity/size field of the structured description replaced by v+-1, 0, max, v^(1<<k) for every k, v*4, v/4, wrap candidates, with all enclosing CRCs recomputed and each mutant confirmed invalid by the strict parser -> must be Err; (2) every single-bit flip of the file -> Err if outside the LZMA2 payload, never Ok with different output for CRC32/CRC64 files; (3) every truncation -> Err; run in overflow-checked and in release arithmetic; evaluations = decodes of mutants; distinct by hash of the mutant bytes (field faults) plus two per base file for the exhaustive flip / truncation sweeps",
+        rule: "per base file (valid, 0-3 blocks, check None/CRC32/CRC64, size fields on/off, decoded correctly first): (1) every integrity/size field of the structured description replaced by v+-1, 0, max, v^(1<<k) for every k, v*4, v/4, wrap candidates, with all enclosing CRCs recomputed and each mutant confirmed invalid by the strict parser -> must be Err; (1b) sampled PAIRS of such field faults on different fields (possibly compensating) -> must be Err; (2) every single-bit flip of the file -> Err if outside the LZMA2 payload, never Ok with different output for CRC32/CRC64 files; (3) every truncation -> Err; run in overflow-checked and in release arithmetic; evaluations = decodes of mutants; distinct by hash of the mutant bytes (field faults) plus two per base file for the exhaustive flip / truncation sweeps",
         assumptions: vec![
             "expected verdicts by construction; the strict parser (self-checked against liblzma) confirms each field mutant is invalid".into(),
             "check None gives no protection for payload bytes: only structural fields are asserted there".into(),
             "a payload bit flip that leaves the decoded bytes identical (e.g. the ignored first range-coder byte) is not a violation".into(),
         ],
-        families: vec![Family { name: "files", count: tier.pick(2400, 40_000), priority: false, enumerated: false, run: fam_files }],
+        families: vec![Family { name: "files", count: tier.pick(1200, 40_000), priority: false, enumerated: false, run: fam_files }],
         label,
         floors,
         summarize: no_summary,
